@@ -26,8 +26,10 @@ HARNESSES = [
     Harness('c22_callback_wrapper_cancel_releases_once', 'wrapper.cancel_releases_task_once_destructors_see_task', 'callback, TaskState::drop (%s)' % A, bounded=B),
     Harness('c22_two_waitables_exit_only_after_both_completed', 'step.two_waitables_exit_only_after_both', T, bounded='two registered waitables, either completion order, finished work'),
     Harness('c22_block_on_ready_future_returns_without_waiting', 'block_on.ready_future_returns_without_waiting', 'block_on (%s)' % A, bounded=B),
+    Harness('c22_block_on_yield_without_any_waitable_returns', 'block_on.yield_without_any_waitable_returns', 'block_on (%s)' % A, bounded=B),
     Harness('c22_block_on_waits_on_own_set_until_the_event_then_returns', 'block_on.waits_on_own_set_delivers_event_once_returns', 'block_on (%s)' % A, bounded=B + '; two loop iterations'),
     Harness('c22_register_unregister_keep_map_and_set_in_step', 'cabi.register_unregister_keep_map_and_set_in_step', 'SharedTaskState::{waitable_register, waitable_unregister, add_waitable} (%s)' % A, bounded=B),
+    Harness('c22_task_handle_clone_and_drop_balance_set_released_once', 'cabi.task_handle_clone_drop_balance_set_released_once', 'SharedTaskState::{cabi_clone, cabi_drop, cabi_to_self}, Drop (%s)' % A, bounded=B),
 ]
 
 
